@@ -312,6 +312,26 @@ def _note_array_and_tracks(b, rng):
             after = [p_.num_tracks for p_ in perf.performedparts]
             b.case("tracks/unique_across_parts_without_mixing", not (sets[0] & sets[1]) and after == [len(x) for x in sets] and before == after and perf.num_tracks == sum(after), case,
                    "track sets %r; tracks counted per part before %r and after %r making them unique; performance counts %r" % ([sorted(x, key=repr) for x in sets], before, after, perf.num_tracks))
+    # notes that carry tick fields as the readers produce them, of zero length and shorter than a tick (equal on and off ticks)
+    for notes_t in ([(60, 0.5, 0.5, 480, 480), (64, 1.0, 1.0004, 960, 960), (67, 2.0, 2.5, 1920, 2400)], [(60, 0.0, 0.0, 0, 0)]):
+        nl = [dict(id="n%d" % i, midi_pitch=p, note_on=on, note_off=off, note_on_tick=t0, note_off_tick=t1, velocity=64, track=0, channel=0) for i, (p, on, off, t0, t1) in enumerate(notes_t)]
+        case = {"notes_with_tick_fields": notes_t}
+        ok, part = b.guard("pedal/never_fails_on_valid_notes", case, lambda: pf.PerformedPart(nl, id="P", controls=[dict(number=64, time=0.1, value=0, track=0, channel=0)]))
+        if ok:
+            b.case("pedal/no_pedal_events_means_release", [float(n["sound_off"]) for n in part.notes] == [float(x[2]) for x in notes_t], case, "sounding ends %r" % [n["sound_off"] for n in part.notes])
+    # a performance one of whose parts holds control changes and no note (the pedal on a track of its own)
+    for order in ((0, 1, 2), (2, 0, 1)):
+        mk3 = [lambda: pf.PerformedPart([dict(id="a%d" % i, midi_pitch=60 + i, note_on=0.0, note_off=1.0, velocity=64, track=i, channel=0) for i in range(2)], id="A"),
+               lambda: pf.PerformedPart([dict(id="b%d" % i, midi_pitch=70 + i, note_on=0.0, note_off=1.0, velocity=64, track=i, channel=0) for i in range(2)], id="B"),
+               lambda: pf.PerformedPart([], id="C", controls=[dict(number=64, time=0.2, value=100, track=0, channel=0), dict(number=67, time=0.3, value=50, track=0, channel=0)])]
+        case = {"parts": ["two tracks of notes", "two tracks of notes", "controls only"], "order": list(order)}
+        ok, perf = b.guard("tracks/no_exception", case, lambda: pf.Performance([mk3[k]() for k in order]))
+        if not ok:
+            continue
+        sets = [set(n["track"] for n in p_.notes) | set(c["track"] for c in p_.controls) for p_ in perf.performedparts]
+        disjoint = all(not (sets[i] & sets[j]) for i in range(3) for j in range(i + 1, 3))
+        b.case("tracks/unique_across_parts_without_mixing", disjoint and len(perf.performedparts) == 3 and perf.num_tracks == sum(len(x) for x in sets) == 5, case,
+               "track sets per part %r, performance counts %r tracks" % ([sorted(x) for x in sets], perf.num_tracks))
     # the numeric type of the note times is the caller's: whole seconds given as Python or numpy integers, float32 values
     import numpy as _np
     for tname, conv in (("int", int), ("numpy.int64", _np.int64), ("numpy.int32", _np.int32), ("numpy.float32", _np.float32), ("numpy.float64", _np.float64)):
